@@ -6,10 +6,11 @@
        be Allowed by the reference automaton of Chunked.tla (ok stays TRUE).
    (The Enc/Dec round trip is in ChunkedRT.)                                                    *)
 EXTENDS Chunked, TLC
-CONSTANTS L
+CONSTANTS L, Mode      \* Mode "main": size lines, bodies, trailers; "quoted": quoted-string extension values (quoted-pair handling)
 
-Alphabet == {48, 49, 50, 103, 59, 0, CR, LF}          \* '0' '1' '2' 'g' ';' NUL CR LF
-Cfgs == {[lmax |-> 1024, tmax |-> 65536], [lmax |-> 4, tmax |-> 6]}
+Alphabet == IF Mode = "main" THEN {48, 49, 50, 103, 59, 0, CR, LF}          \* '0' '1' '2' 'g' ';' NUL CR LF
+            ELSE {34, 92, 103, 0, CR, LF}                                  \* '"' '\' 'g' NUL CR LF
+Cfgs == IF Mode = "main" THEN {[lmax |-> 1024, tmax |-> 65536], [lmax |-> 4, tmax |-> 6]} ELSE {[lmax |-> 1024, tmax |-> 65536]}
 
 \* ---- the algorithm as coded
 CodeExtChars == {9} \cup (32..91) \cup (93..126) \cup (128..255)     \* _chunkExtChars
@@ -26,6 +27,20 @@ RECURSIVE HexInt(_, _)
 HexInt(s, n) == IF n = 0 THEN 0 ELSE HexInt(s, n - 1) * 16 + HexVal(s[n])
 Err(m, o) == [m |-> m, o |-> [o EXCEPT !.exc = "Malformed"], go |-> FALSE]
 
+\* _chunkExtQuotedString.sub(b'""', ext), applied when the extension contains a backslash:
+\*   "(?:[\t !#-\[\]-~\x80-\xff]|\\[\t -~\x80-\xff])*"   (leftmost, non-overlapping; the alternatives are disjoint, no backtracking choice)
+CodeQd(b) == b \in {9, 32, 33} \cup (35..91) \cup (93..126) \cup (128..255)
+CodeQp(b) == b \in {9} \cup (32..126) \cup (128..255)
+RECURSIVE QEnd(_, _)
+QEnd(e, k) == IF k > Len(e) THEN 0 ELSE IF e[k] = DQ THEN k
+              ELSE IF e[k] = BSL THEN (IF k + 1 <= Len(e) /\ CodeQp(e[k + 1]) THEN QEnd(e, k + 2) ELSE 0)
+              ELSE IF CodeQd(e[k]) THEN QEnd(e, k + 1) ELSE 0
+RECURSIVE StripQuoted(_, _)
+StripQuoted(e, i) == IF i > Len(e) THEN <<>>
+                     ELSE IF e[i] = DQ /\ QEnd(e, i + 1) > 0 THEN <<DQ, DQ>> \o StripQuoted(e, QEnd(e, i + 1) + 1)
+                     ELSE <<e[i]>> \o StripQuoted(e, i + 1)
+CheckedExt(ext) == IF \E i \in 1..Len(ext) : ext[i] = BSL THEN StripQuoted(ext, 1) ELSE ext
+
 HChunkLength(m, o, c) ==
     LET eol == Find(m.buf, m.start) IN
     IF eol >= c.lmax \/ (eol = -1 /\ Len(m.buf) > c.lmax) THEN Err(m, o)
@@ -34,7 +49,7 @@ HChunkLength(m, o, c) ==
              eolen == IF semi = -1 THEN eol ELSE semi
              ext == SubSeq(m.buf, eolen + 2, eol)
          IN IF eolen = 0 \/ \E i \in 1..eolen : ~IsHex(m.buf[i]) THEN Err(m, o)
-            ELSE IF \E i \in 1..Len(ext) : ext[i] \notin CodeExtChars THEN Err(m, o)
+            ELSE IF \E i \in 1..Len(CheckedExt(ext)) : CheckedExt(ext)[i] \notin CodeExtChars THEN Err(m, o)
             ELSE LET len == HexInt(m.buf, eolen) IN
                  [m |-> [m EXCEPT !.state = IF len = 0 THEN "TRAILER" ELSE "BODY", !.length = len,
                                   !.buf = Drop(m.buf, eol + 2), !.start = 0], o |-> o, go |-> TRUE]
@@ -78,8 +93,10 @@ DataReceived(m, data, c) == Loop([m EXCEPT !.buf = m.buf \o data], O0, c)
 VARIABLES m, ok, refAll, ext
 mcvars == <<vars, m, ok, refAll, ext>>
 \* seeds: grammatical prefixes (undelivered), so that streams reaching every phase are within L extensions
-Seeds == {<<>>, <<49, 59>>, <<49, CR, LF, 103>>, <<50, CR, LF, CR>>, <<48, CR, LF>>, <<48, CR, LF, 103, 58>>,
-          <<49, CR, LF, 59, CR, LF, 48, CR, LF>>}
+Seeds == IF Mode = "main"
+         THEN {<<>>, <<49, 59>>, <<49, CR, LF, 103>>, <<50, CR, LF, CR>>, <<48, CR, LF>>, <<48, CR, LF, 103, 58>>,
+               <<49, CR, LF, 59, CR, LF, 48, CR, LF>>}
+         ELSE {<<49, 59, 103, 61, 34>>, <<48, 59, 103, 61, 34, 92>>}          \* 1;g="   and   0;g="\
 MCInit == /\ \E c \in Cfgs, s \in Seeds : InitWith(c, s)
           /\ m = M0 /\ ok = TRUE /\ refAll = Fold(S0, str, 1, Len(str), cfg.lmax, cfg.tmax) /\ ext = 0
 
